@@ -802,4 +802,29 @@ def r18_9(ctx):
     ctx.floor(n, 4, "paths of Color.downgrade to a 16-colour system")
 
 
-RULES = [r18_0, r18_1, r18_4, r18_5, r18_6, r18_7, r18_8, r18_9]
+def r18_10(ctx):
+    ctx.rule("R18.10", "the grey step is the documented one: in the truecolor -> 256 branch of Color.downgrade the step on the 24-grey ramp is `round(l * 25.0)` of the lightness - Python's round(), ties to even. `int(x + 0.5)` / `floor(x + 0.5)` round ties up and give the next step for lightness values exactly half way (rgb(127,128,127): 244 instead of 243); `int(x)` truncates. Both still land on the ramp (R18.1-3), so only this clause notices them")
+    f = ctx.repo.fn("color:Color.downgrade")
+    from ..astutil import inline as _inl, single_defs as _sdf
+    sd = _sdf(f.node)
+    cands = []
+    for x in walk_local(f.node):
+        if isinstance(x, ast.Assign) and len(x.targets) == 1 and isinstance(x.targets[0], ast.Name):
+            v = x.value
+            txt = norm(v)
+            if ("25" in txt) and any(isinstance(y, ast.Name) and y.id in ("l", "lightness", "light") for y in ast.walk(v)) and not any(isinstance(y, ast.Compare) for y in ast.walk(v)):
+                cands.append(x)
+    if not cands:
+        raise AnalysisError("Color.downgrade: the grey-step computation (lightness * 25) was not found; written differently, the rounding clause is not decided")
+    for x in cands:
+        v = x.value
+        where = f"{f.module.relpath}:{x.lineno}"
+        if isinstance(v, ast.Call) and norm(v.func) == "round" and len(v.args) == 1:
+            ctx.ok(where, f"`{short(x)}`: builtin round (ties to even)", f.fq)
+        elif isinstance(v, ast.Call) and norm(v.func) in ("int", "math.floor", "floor", "math.ceil", "ceil", "math.trunc"):
+            ctx.violation(f.fq, short(x), where, f"`{short(x)}` does not round the grey step the documented way (round(lightness * 25), ties to even): on exact ties (rgb(127,128,127), rgb(25,26,25) ..) the colour written to a 256-colour terminal is the neighbouring grey")
+        else:
+            raise AnalysisError(f"Color.downgrade: `{short(x)}` - cannot tell how the grey step is rounded")
+
+
+RULES = [r18_0, r18_1, r18_4, r18_5, r18_6, r18_7, r18_8, r18_9, r18_10]
